@@ -247,5 +247,28 @@ PROPS["C08"] = {
     "assumptions": ["the temporary file name differs from the destination name and does not exist yet"],
 }
 
+PROPS["C07"] = {
+    "package": "c07", "exe": "m_c07",
+    "rule": "random delegation trees to depth 3 and fan-out 3 (<= 8 roles); each role delegated by 1..3 path patterns drawn "
+            "from literals and 16 patterns with '*' and '?' (incl. patterns that only match because wildcards cross '/') or "
+            "by 1..3 hash prefixes of length 0..3 (of real name digests, or random); 1..6 target names out of 12 (sub-directories, "
+            "names needing resolution such as x/../a, d/./b, d//a, an absolute name) each listed by every role with probability "
+            "1/3, every (role, name) entry with its own digest; both consistent-snapshot settings. Non-trivial: the tree has at "
+            "least one delegated role.",
+    "explanation": "Theorems (Tough/Props/C07.lean): find_target returns the first entry in pre-order whose whole delegation "
+                   "chain matches the name (mutual structural induction over the tree, any depth and fan-out); a served "
+                   "entry is listed under an authorized chain; validate succeeds iff every listed name is reachable through "
+                   "an authorized chain; a successful cycle has validated its tree. Correspondence: load() verdict "
+                   "(InvalidPath) and, for every name, the digest of the entry Targets::find_target serves, vs the model; "
+                   "pattern and hash-prefix matching are computed in Lean (globMatch, cleanName) from the pattern strings.",
+    "level_text": "Kernel-checked characterisation of the lookup over the delegation tree; differential runs over random "
+                  "trees with real glob patterns and hash prefixes.",
+    "level_note": "Trusted: as C02; globset's matching of the subset {literal, *, ?} is transcribed in Tough/Model/Glob.lean and "
+                  "validated only by the correspondence (other glob syntax is not modelled); `terminating` is ignored by the "
+                  "code and by the model.",
+    "trusted": _CLIENT_TRUSTED + ["modelled, not verified: globset (subset: literals, '*', '?'; default options), SHA-256 of names for hash prefixes (supplied by the harness)"],
+    "assumptions": [],
+}
+
 _PENDING = "check under construction in this session (DESIGN.md §10 order of work); not claimed until it runs"
 NOT_APPLICABLE = {f"C{i:02d}": _PENDING for i in range(1, 21)}
